@@ -397,6 +397,14 @@ func (rf *ReplicaFollower) preSync(leaderSp StartPoint) (sp StartPoint, err erro
 	rf.logger.Infof("gap : leader(%v), follower(%v)", leaderSp, sp)
 
 	if sp.IsInitial() || !sp.IsValid() || sp.RunId != leaderSp.RunId {
+		// what the follower holds under another replication id is not part of the leader's
+		// history: discard it instead of relabelling it with the leader's id
+		if old := rf.channel.RunId(); old != "" && old != leaderSp.RunId {
+			if err = rf.channel.DelRunId(old); err != nil {
+				err = errors.Join(ErrRestart, err)
+				return
+			}
+		}
 		if err = rf.channel.SetRunId(leaderSp.RunId); err != nil {
 			err = errors.Join(ErrRestart, err)
 			return
